@@ -11,6 +11,7 @@ CONSTANTS Lits,        \* literal spellings of property names used by the genera
           MaxHist      \* bound on the history length
 
 VARIABLES list, hist
+CONSTANT Emit   \* TRUE in the behaviour-generation configs: print every explored transition
 vars == <<list, hist>>
 
 SetArgs   == Lits \X (Values \cup {BadValue}) \X (Prios \cup {BadPrio})
@@ -28,6 +29,7 @@ Alphabet ==
 Act(a) == /\ Len(hist) < MaxHist
           /\ list' = Ref(list, a).list
           /\ hist' = Append(hist, a)
+          /\ (Emit => PrintT(<<"HIST", ToJson([h |-> Append(hist, a), s |-> list])>>))
 Ops(S) == {a \in Alphabet : a.op \in S}
 
 SetProperty    == \E a \in Ops({"set"}) : Act(a)
@@ -74,6 +76,6 @@ ImportantWins == \A n \in NamesOf(list) :
                     (\E i \in Idx(list, n) : list[i].prio # "") => list[Eff(list, n)].prio # ""
 
 \* ---- behaviour generation: one shortest history per reachable list --------------------------
-EmitHist == PrintT(<<"HIST", ToJson([h |-> hist, s |-> list])>>)
+EmitWalk == Len(hist) = MaxHist => PrintT(<<"WALK", ToJson(hist)>>)
 EmitAlphabet == hist = <<>> => PrintT(<<"ALPHABET", ToJson(Alphabet)>>)
 =============================================================================
